@@ -19,6 +19,9 @@ inline Alphabet SigmaAG() { return {{0, 2}, {"a", "g"}}; }
 inline Alphabet SigmaAF() { return {{0, 1}, {"a", "f"}}; }
 inline Alphabet SigmaAFH() { return {{0, 1, 3}, {"a", "f", "h"}}; }   // a:0 f:1 h:3
 inline Alphabet SigmaAH() { return {{0, 3}, {"a", "h"}}; }
+// one symbol NAME used with two arities (unusual but legal Timbuk; the shipped corpus has such files): the model keeps them apart as two symbols
+inline Alphabet SigmaOv() { return {{0, 0, 2}, {"a", "b", "a"}}; }   // a:0 b:0 a:2
+inline Alphabet SigmaOv1() { return {{0, 1, 2}, {"a", "a", "a"}}; }   // a:0 a:1 a:2
 inline Alphabet SigmaA() { return {{0}, {"a"}}; }
 
 // TA(n, Sigma, <=k): all automata over states 0..n-1 with at most k rules from the rule universe
